@@ -97,19 +97,33 @@ def check_split(run, E):
     from contracts.common import unique_inverse_model
 
     def ui(E, array):
-        values, _ = unique_inverse_model(E, array)
+        """(distinct values in order of first appearance, position of each entry's value in that list): the position is a
+        function idx of the VALUE; idx(values[p]) = p (hence the values are pairwise distinct) and values[idx(x_j)] = x_j"""
         ct = E.toV(array)
         n = E.as_int(E.seq_len(array))
-        inv = ufunc('inverse_index', 2, 'int')
+        nu = ufunc('n_distinct', 1, 'int')(ct)
+        E.fact(z3.And(nu >= 0, nu <= n, z3.Implies(n > 0, nu > 0)))
+        el = ufunc('distinct_value', 2)
+        idx = ufunc('position_of_value', 2, 'int')
 
-        def elem(j):
-            z = inv(ct, boxI(j))
-            E.fact(z3.Implies(z3.And(j >= 0, j < n), z3.And(z >= 0, z < values.zlen())))
+        def velem(q):
+            z = el(ct, boxI(q))
+            E.fact(z3.Implies(z3.And(q >= 0, q < nu), idx(ct, z) == q))
+            return SV(z, 'val', tag='scalar')
+        values = SeqV(length=nu, elem=velem, kind='array', term=ufunc('distinct_values_in_order_of_first_appearance', 1)(ct))
+
+        def ielem(j):
+            x = E.toV(E.seq_elem(E.as_seq(array), j) if isinstance(array, SeqV) else E.app('getitem', [array, SV(j, 'int')]))
+            z = idx(ct, x)
+            E.fact(z3.Implies(z3.And(j >= 0, j < n), z3.And(z >= 0, z < nu, el(ct, boxI(z)) == x)))
             return SV(z, 'int')
-        return values, SeqV(length=n, elem=elem, kind='array', esort='int')
+        return values, SeqV(length=n, elem=ielem, kind='array', esort='int')
     E.contracts['rsatoolbox.util.data_utils.get_unique_inverse'] = Contract(
         'rsatoolbox.util.data_utils.get_unique_inverse', define=ui,
         doc='(distinct values in order of first appearance, for every entry the position of its value in that list)')
+    E.contracts['rsatoolbox.util.data_utils.get_unique_unsorted'] = Contract(
+        'rsatoolbox.util.data_utils.get_unique_unsorted', define=lambda E, array: ui(E, array)[0],
+        doc='distinct values in order of first appearance')
 
     def dd_copy(E, d):
         c = E.app('copy', [d], 'obj', cls='DescDict')
@@ -123,7 +137,8 @@ def check_split(run, E):
     E.methods[('DescDict', 'copy')] = dd_copy
     E.methods[('DescDict', '__setitem__')] = dd_set
     table = [('Dataset', 'split_obs', 'obs_descriptors', 0, 2), ('Dataset', 'split_channel', 'channel_descriptors', 1, 2),
-             ('TemporalDataset', 'split_obs', 'obs_descriptors', 0, 3), ('TemporalDataset', 'split_channel', 'channel_descriptors', 1, 3)]
+             ('TemporalDataset', 'split_obs', 'obs_descriptors', 0, 3), ('TemporalDataset', 'split_channel', 'channel_descriptors', 1, 3),
+             ('TemporalDataset', 'split_time', 'time_descriptors', 2, 3)]
     for cls, meth, which, axis, rank in table:
         ck = FuncCheck(E, run, 'C11', DS + cls + '.' + meth, '')
 
@@ -177,6 +192,8 @@ def check_split(run, E):
             for other in others:
                 if other != which:
                     ck.ensure_eq('post/passed-through-' + other, part.fields.get(other), E.getattr(self, other))
+            if which == 'time_descriptors':
+                ck.ensure_eq('post/passed-through-descriptors', part.fields.get('descriptors'), E.getattr(self, 'descriptors'))
         ck.execute(mk, post=post, allow_raise=lambda *a: None)
         yield ck
 
